@@ -140,3 +140,51 @@ def expected(st):
     return {'hash': st['hash'], 'polled': st['polled'], 'custom': [c['r'] for c in st['custom']],
             'jobs': len(st['jobs']),
             'installed': {'cfg': st['installed']['cfg'], 'regs': sorted(st['installed']['regs'])}}
+
+
+class ConcurrentSync(SyncSystem):
+    """The same real objects, but the pool's two workers and the thread that polls / registers are real threads
+    under the cooperative scheduler, with every line of tracepoint_config.py a possible preemption point."""
+
+    LINE_FILES = ('deep/config/tracepoint_config.py',)
+
+    def __init__(self, script):
+        from . import sched as S
+        super().__init__()
+        self.sched = S.Scheduler(line_files=self.LINE_FILES)
+        self.cpool = fakes.ControlledPool(self.sched)
+        self.deep.task_handler._pool = self.cpool
+        self.script = script
+        self.errors = []
+
+    def main_body(self):
+        for action, args in self.script:
+            self.sched.point('before-' + action)
+            try:
+                self.do(action, args)
+            except BaseException as ex:
+                self.errors.append(repr(ex))
+
+    def do(self, action, args):
+        if action in ('Take', 'Apply'):
+            raise ValueError('workers are threads here')
+        return super().do(action, args)
+
+    def spawn(self):
+        self.sched.spawn('M', self.main_body)
+        self.sched.spawn('W1', self.cpool.worker)
+        self.sched.spawn('W2', self.cpool.worker)
+
+    def finish(self):
+        self.cpool.stop = True
+        for w in ('W1', 'W2'):
+            while not self.sched.threads[w].done and w in self.sched.enabled():
+                self.sched.step(w)
+        self.sched.join()
+        h = self.tps.current_hash
+        return {'hash': int(h) if h else 0, 'polled': version_of(self.tps._tracepoint_config),
+                'custom': reg_tags(self.tps._custom),
+                'installed': {'cfg': version_of(self.deep.trigger_handler._tp_config),
+                              'regs': sorted(reg_tags(self.deep.trigger_handler._tp_config))},
+                'errors': self.errors + [n + ':' + repr(m.error) for n, m in self.sched.threads.items()
+                                         if m.error is not None]}
